@@ -15,7 +15,7 @@ import (
 )
 
 type re struct {
-	kind   string // chr any cls bol eol seq alt star plus opt group
+	kind   string // chr any cls bol eol bos eos seq alt star plus opt group
 	c      byte
 	neg    bool
 	ranges [][2]byte
@@ -39,12 +39,21 @@ var classes = []re{
 	{kind: "cls", text: `\w`, ranges: [][2]byte{{'_', '_'}, {'0', '9'}, {'a', 'z'}, {'A', 'Z'}}},
 	{kind: "cls", text: `\s`, ranges: [][2]byte{{' ', ' '}, {'\t', '\t'}, {'\r', '\r'}, {'\n', '\n'}}},
 	{kind: "cls", text: `\D`, neg: true, ranges: [][2]byte{{'0', '9'}}},
+	{kind: "cls", text: "[xyz]", ranges: [][2]byte{{'x', 'x'}, {'y', 'y'}, {'z', 'z'}}},
+	{kind: "cls", text: "[abz]", ranges: [][2]byte{{'a', 'a'}, {'b', 'b'}, {'z', 'z'}}},
+	{kind: "cls", text: "[A-Z]", ranges: [][2]byte{{'A', 'Z'}}},
+	{kind: "cls", text: "[a-z]", ranges: [][2]byte{{'a', 'z'}}},
+	{kind: "cls", text: "[^a-z]", neg: true, ranges: [][2]byte{{'a', 'z'}}},
+	{kind: "cls", text: "[m-zA]", ranges: [][2]byte{{'m', 'z'}, {'A', 'A'}}},
+	{kind: "cls", text: "[bc]", ranges: [][2]byte{{'b', 'b'}, {'c', 'c'}}},
 }
+
+const litChars = "abcxzZA1"
 
 func (g *gen) atom() *re {
 	switch k := g.r.Intn(10); {
 	case k < 5:
-		return &re{kind: "chr", c: "abcx1"[g.r.Intn(5)]}
+		return &re{kind: "chr", c: litChars[g.r.Intn(len(litChars))]}
 	case k < 6:
 		return &re{kind: "any"}
 	default:
@@ -79,6 +88,34 @@ func (g *gen) gen(depth int) *re {
 	}
 }
 
+// overlap builds patterns whose alternatives / optional parts start with overlapping first
+// characters (a small class and one of its own members): the cases in which a matcher must not
+// commit to a branch on the first character (one-pass eligibility, literal prefixes)
+func (g *gen) overlap() (*re, string) {
+	small := []int{0, 8, 9, 14} // [ab] [xyz] [abz] [bc]
+	c := classes[small[g.r.Intn(len(small))]]
+	m := c.ranges[g.r.Intn(len(c.ranges))][0]
+	alpha := ""
+	for _, r := range c.ranges {
+		alpha += string(r[0])
+	}
+	alpha += string("c1"[g.r.Intn(2)])
+	cls := func() *re { cc := c; return &cc }
+	tail := &re{kind: "chr", c: alpha[g.r.Intn(len(alpha))]}
+	var x *re
+	switch g.r.Intn(4) {
+	case 0:
+		x = g.group(&re{kind: "alt", a: cls(), b: &re{kind: "seq", a: &re{kind: "chr", c: m}, b: tail}})
+	case 1:
+		x = g.group(&re{kind: "alt", a: &re{kind: "seq", a: &re{kind: "chr", c: m}, b: tail}, b: cls()})
+	case 2:
+		x = &re{kind: "seq", a: &re{kind: "opt", greedy: g.r.Intn(2) == 0, a: cls()}, b: &re{kind: "seq", a: &re{kind: "chr", c: m}, b: tail}}
+	default:
+		x = &re{kind: "seq", a: &re{kind: "star", greedy: g.r.Intn(2) == 0, a: cls()}, b: &re{kind: "chr", c: m}}
+	}
+	return x, alpha
+}
+
 func number(x *re, n *int) {
 	if x == nil {
 		return
@@ -95,7 +132,7 @@ func nullable(x *re) bool {
 	switch x.kind {
 	case "chr", "any", "cls":
 		return false
-	case "bol", "eol", "star", "opt":
+	case "bol", "eol", "bos", "eos", "star", "opt":
 		return true
 	case "seq":
 		return nullable(x.a) && nullable(x.b)
@@ -129,6 +166,10 @@ func (x *re) src(sb *strings.Builder) {
 		sb.WriteByte('^')
 	case "eol":
 		sb.WriteByte('$')
+	case "bos":
+		sb.WriteString(`\A`)
+	case "eos":
+		sb.WriteString(`\Z`)
 	case "seq":
 		x.a.src(sb)
 		x.b.src(sb)
@@ -166,6 +207,10 @@ func (x *re) lean(sb *strings.Builder) {
 		sb.WriteString("^")
 	case "eol":
 		sb.WriteString("$")
+	case "bos":
+		sb.WriteString("A")
+	case "eos":
+		sb.WriteString("Z")
 	case "cls":
 		fmt.Fprintf(sb, "( k %s %d", b01(x.neg), len(x.ranges))
 		for _, r := range x.ranges {
@@ -189,6 +234,67 @@ func (x *re) lean(sb *strings.Builder) {
 	}
 }
 
+func capString(matched bool, cap *regex.Captures, ng int) string {
+	if !matched {
+		return "-"
+	}
+	parts := []string{fmt.Sprint(cap[0]), fmt.Sprint(cap[1])}
+	for gi := 1; gi <= ng; gi++ {
+		if cap[2*gi] < 0 {
+			parts = append(parts, "-1", "-1")
+		} else {
+			parts = append(parts, fmt.Sprint(cap[2*gi]), fmt.Sprint(cap[2*gi+1]))
+		}
+	}
+	return strings.Join(parts, " ")
+}
+
+// goAt: the reference engine's match of the pattern starting exactly at offset i of the whole
+// subject (anchors see the whole subject): \A(?s:.{i})(?:pattern)
+type goRef struct {
+	pat   string // Go spelling of the pattern (with (?i) if in effect)
+	cache map[int]*regexp.Regexp
+}
+
+func (g *goRef) at(s string, i, ng int) string {
+	re := g.cache[i]
+	if re == nil {
+		re = regexp.MustCompile(fmt.Sprintf(`(?m)\A(?s:.{%d})(?:%s)`, i, g.pat))
+		g.cache[i] = re
+	}
+	m := re.FindStringSubmatchIndex(s)
+	if m == nil {
+		return "-"
+	}
+	parts := []string{fmt.Sprint(i), fmt.Sprint(m[1])}
+	for gi := 1; gi <= ng; gi++ {
+		if m[2*gi] < 0 {
+			parts = append(parts, "-1", "-1")
+		} else {
+			parts = append(parts, fmt.Sprint(m[2*gi]), fmt.Sprint(m[2*gi+1]))
+		}
+	}
+	return strings.Join(parts, " ")
+}
+
+func (g *goRef) first(s string, pos, ng int) string {
+	for i := pos; i <= len(s); i++ {
+		if r := g.at(s, i, ng); r != "-" {
+			return r
+		}
+	}
+	return "-"
+}
+
+func (g *goRef) last(s string, pos, ng int) string {
+	for i := pos; i >= 0; i-- {
+		if r := g.at(s, i, ng); r != "-" {
+			return r
+		}
+	}
+	return "-"
+}
+
 func main() {
 	t := lib.Open()
 	defer t.Close()
@@ -196,13 +302,35 @@ func main() {
 	n := lib.N(5000)
 	for i := 0; i < n; i++ {
 		g := &gen{r: r}
-		x := g.gen(2 + r.Intn(3))
-		// anchors only at the ends of the whole pattern (a quantified anchor differs from Go by design)
-		if r.Intn(4) == 0 {
-			x = &re{kind: "seq", a: &re{kind: "bol"}, b: x}
+		var x *re
+		forceAlpha := ""
+		if r.Intn(8) == 0 {
+			// all-literal pattern: the literal fast paths (equal / prefix / suffix / substring)
+			x = &re{kind: "chr", c: litChars[r.Intn(4)]}
+			for k := r.Intn(3); k > 0; k-- {
+				x = &re{kind: "seq", a: x, b: &re{kind: "chr", c: litChars[r.Intn(4)]}}
+			}
+			t.Count("shape:all-literal")
+		} else if r.Intn(8) == 0 {
+			x, forceAlpha = g.overlap()
+			t.Count("shape:overlapping-first-characters")
+		} else {
+			x = g.gen(2 + r.Intn(3))
 		}
-		if r.Intn(4) == 0 {
+		// anchors only at the ends of the whole pattern (a quantified anchor differs from Go by design)
+		switch r.Intn(10) {
+		case 0, 1:
+			x = &re{kind: "seq", a: &re{kind: "bol"}, b: x}
+		case 2, 3, 4:
+			x = &re{kind: "seq", a: &re{kind: "bos"}, b: x}
+			t.Count("anchor:\\A")
+		}
+		switch r.Intn(10) {
+		case 0, 1:
 			x = &re{kind: "seq", a: x, b: &re{kind: "eol"}}
+		case 2, 3:
+			x = &re{kind: "seq", a: x, b: &re{kind: "eos"}}
+			t.Count("anchor:\\Z")
 		}
 		ng := 0
 		number(x, &ng)
@@ -213,12 +341,30 @@ func main() {
 		var sb strings.Builder
 		x.src(&sb)
 		pat := sb.String()
+		ic := r.Intn(4) == 0
+		icp, icf := "", "0"
+		if ic {
+			icp, icf = "(?i)", "1"
+			t.Count("flag:(?i)")
+		}
 		alphabet := "abcx1 \n"
-		withCR := r.Intn(6) == 0
-		if withCR {
+		withCR := false
+		switch r.Intn(6) {
+		case 0:
 			alphabet = "abc\r\n1"
+			withCR = true
+		case 1, 2:
+			alphabet = "abzZAB"
+		case 3:
+			alphabet = "ab"
+		}
+		if forceAlpha != "" && !withCR {
+			alphabet = forceAlpha
 		}
 		ln := r.Intn(8)
+		if forceAlpha != "" {
+			ln = r.Intn(4)
+		}
 		subj := make([]byte, ln)
 		for j := range subj {
 			subj[j] = alphabet[r.Intn(len(alphabet))]
@@ -226,43 +372,61 @@ func main() {
 		s := string(subj)
 
 		var cap regex.Captures
-		for j := range cap {
-			cap[j] = -1
-		}
+		var p regex.Pattern
 		matched := false
 		start := time.Now()
 		msg := lib.Catch(func() {
-			p := regex.Compile(pat)
+			p = regex.Compile(icp + pat)
 			matched = p.Match(s, &cap)
 		})
 		el := time.Since(start)
 		if msg != "" {
-			t.Fail("regex-panic", fmt.Sprintf("pattern %q subject %q: %s", pat, s, msg))
+			t.Fail("regex-panic", fmt.Sprintf("pattern %q subject %q: %s", icp+pat, s, msg))
 			continue
 		}
 		if el > 5*time.Second {
-			t.Fail("regex-slow", fmt.Sprintf("pattern %q subject %q took %v", pat, s, el))
+			t.Fail("regex-slow", fmt.Sprintf("pattern %q subject %q took %v", icp+pat, s, el))
 		}
-		out := "-"
+		out := capString(matched, &cap, ng)
 		if matched {
-			parts := []string{fmt.Sprint(cap[0]), fmt.Sprint(cap[1])}
-			for gi := 1; gi <= ng; gi++ {
-				if cap[2*gi] < 0 {
-					parts = append(parts, "-1", "-1")
-				} else {
-					parts = append(parts, fmt.Sprint(cap[2*gi]), fmt.Sprint(cap[2*gi+1]))
-				}
-			}
-			out = strings.Join(parts, " ")
 			t.Count("outcome:match")
 		} else {
 			t.Count("outcome:no-match")
 		}
 		t.Count(fmt.Sprintf("groups=%d", ng))
 		t.Count(fmt.Sprintf("subject-len=%d", ln))
-		// direct oracle: Go regexp (multi-line, as Suneido's default; subjects without \r)
+
+		// the other entry points: FirstMatch(s, pos), LastMatch(s, pos), All(s)
+		pos := r.Intn(ln + 1)
+		var firstOut, lastOut, allOut string
+		msg = lib.Catch(func() {
+			var c2 regex.Captures
+			firstOut = capString(p.FirstMatch(s, pos, &c2), &c2, ng)
+			var c3 regex.Captures
+			lastOut = capString(p.LastMatch(s, pos, &c3), &c3, ng)
+			var spans []string
+			cnt := 0
+			for c := range p.All(s) {
+				spans = append(spans, fmt.Sprintf("%d:%d", c[0], c[1]))
+				if cnt++; cnt > 50 {
+					spans = append(spans, "runaway")
+					break
+				}
+			}
+			allOut = "-"
+			if len(spans) > 0 {
+				allOut = strings.Join(spans, " ")
+			}
+		})
+		if msg != "" {
+			t.Fail("regex-panic", fmt.Sprintf("pattern %q subject %q FirstMatch/LastMatch/All at %d: %s", icp+pat, s, pos, msg))
+			continue
+		}
+
+		// direct oracle: Go regexp (multi-line as Suneido's default, \Z spelled \z; subjects without \r)
 		if !withCR {
-			gp, err := regexp.Compile("(?m)" + pat)
+			gpat := strings.ReplaceAll(pat, `\Z`, `\z`)
+			gp, err := regexp.Compile("(?m)" + icp + gpat)
 			if err != nil {
 				t.Fail("generator-invalid-pattern", pat+": "+err.Error())
 				continue
@@ -277,7 +441,32 @@ func main() {
 				gout = strings.Join(parts, " ")
 			}
 			if gout != out {
-				t.Fail("regex-differs-from-reference", fmt.Sprintf("pattern %q subject %q: suneido [%s] go [%s]", pat, s, out, gout))
+				t.Fail("regex-differs-from-reference", fmt.Sprintf("pattern %q subject %q: suneido [%s] go [%s]", icp+pat, s, out, gout))
+			}
+			ref := &goRef{pat: icp + gpat, cache: map[int]*regexp.Regexp{}}
+			if g1 := ref.first(s, pos, ng); g1 != firstOut {
+				t.Fail("regex-firstmatch-differs-from-reference", fmt.Sprintf("pattern %q subject %q FirstMatch from %d: suneido [%s] reference [%s]", icp+pat, s, pos, firstOut, g1))
+			}
+			if g2 := ref.last(s, pos, ng); g2 != lastOut {
+				t.Fail("regex-lastmatch-differs-from-reference", fmt.Sprintf("pattern %q subject %q LastMatch from %d: suneido [%s] reference [%s]", icp+pat, s, pos, lastOut, g2))
+			}
+			var spans []string
+			for k := 0; k <= len(s); {
+				m := ref.first(s, k, 0)
+				if m == "-" {
+					break
+				}
+				var a, b int
+				fmt.Sscanf(m, "%d %d", &a, &b)
+				spans = append(spans, fmt.Sprintf("%d:%d", a, b))
+				k = max(b, a+1)
+			}
+			gall := "-"
+			if len(spans) > 0 {
+				gall = strings.Join(spans, " ")
+			}
+			if gall != allOut {
+				t.Fail("regex-all-differs-from-reference", fmt.Sprintf("pattern %q subject %q All: suneido [%s] reference [%s]", icp+pat, s, allOut, gall))
 			}
 			t.Count("oracle:go-regexp")
 		}
@@ -287,9 +476,12 @@ func main() {
 		}
 		var lb strings.Builder
 		x.lean(&lb)
-		t.Q(fmt.Sprintf("match %d %s %s", ng, lib.X(s), lb.String()), out)
+		t.Q(fmt.Sprintf("match %s %d %s %s", icf, ng, lib.X(s), lb.String()), out)
+		t.Q(fmt.Sprintf("first %s %d %d %s %s", icf, ng, pos, lib.X(s), lb.String()), firstOut)
+		t.Q(fmt.Sprintf("last %s %d %d %s %s", icf, ng, pos, lib.X(s), lb.String()), lastOut)
+		t.Q(fmt.Sprintf("all %s %s %s", icf, lib.X(s), lb.String()), allOut)
 		if i < 4 {
-			t.Sample(fmt.Sprintf("%q on %q => %s", pat, s, out))
+			t.Sample(fmt.Sprintf("%q on %q => %s", icp+pat, s, out))
 		}
 	}
 }
